@@ -558,6 +558,7 @@ func c01Helpers(p *core.Program, r *core.Report) {
 		cps = append(cps, codecPair{W: w, R: rd, WS: cw.Recv, RS: cr.Recv, Name: core.FuncName(w.Obj) + " ~ " + core.FuncName(rd.Obj)})
 	}
 	runPairs(p, x, r, cps, pairRules{"C01.helpers", "", ""}, 3)
+	payloadNotTruncated(p, r, "C01.helpers", "io", "DataOutputX")
 }
 
 // c01Counter: in DataOutputX, every statement sequence that appends to out.buffer updates out.written
